@@ -138,6 +138,7 @@ func (ex *Exec) call(fr *Frame, st *State, c *ssa.CallCommon, instr ssa.Instruct
 	if c.IsInvoke() {
 		recv := ex.operand(fr, st, c.Value)
 		if ct := ex.prog.ifaceContract(c); ct != nil {
+			ex.havocClosureArgs(fr, st, c)
 			return ex.applyContract(fr, st, nil, ct, append([]Value{recv}, args...), c, pos)
 		}
 		if sp := ex.ifaceSpecial(fr, st, c, recv, args); sp != nil {
@@ -168,16 +169,18 @@ func (ex *Exec) call(fr *Frame, st *State, c *ssa.CallCommon, instr ssa.Instruct
 			return ex.inlineClosure(fr, st, f, args)
 		}
 	}
-	if ct := ex.prog.contractFor(callee); ct != nil && ct.Opts["inline"] == "" {
-		return ex.applyContract(fr, st, callee, ct, args, c, pos)
-	}
 	if sp, ok := ex.specialCall(fr, st, callee, args, c, pos); ok {
 		return sp
+	}
+	if ct := ex.prog.contractFor(callee); ct != nil && ct.Opts["inline"] == "" {
+		ex.havocClosureArgs(fr, st, c)
+		return ex.applyContract(fr, st, callee, ct, args, c, pos)
 	}
 	if ex.prog.inModule(callee) && len(callee.Blocks) > 0 && ex.prog.isLoopFree(callee) && fr.depth < 4 && !ex.onStack(callee) {
 		return ex.inlineCallAt(fr, st, callee, args, nil)
 	}
 	// unknown callee
+	ex.havocClosureArgs(fr, st, c)
 	ex.vc.note("uncontracted-callee: %s (result havocked%s)", callee.String(), map[bool]string{true: ", heap havocked", false: ""}[ex.prog.inModule(callee)])
 	ms := newModSet()
 	for _, a := range c.Args {
@@ -213,6 +216,27 @@ func (ex *Exec) havocResults(st *State, res *types.Tuple, hint string) Value {
 		vs = append(vs, ex.havocValue(st, fmt.Sprintf("r%d_%s", i, hint), res.At(i).Type()))
 	}
 	return Tuple{vs}
+}
+
+// havocClosureArgs: a function literal handed to a callee that is not inlined may run there any number of
+// times: everything it can write (captured variables, heap) is havocked.
+func (ex *Exec) havocClosureArgs(fr *Frame, st *State, c *ssa.CallCommon) {
+	if len(fr.escaped) > 0 {
+		ms := newModSet()
+		for a := range fr.escaped {
+			ms.cells[a] = true
+		}
+		ex.havocModSet(fr, st, ms, ex.vc.name("esc"))
+	}
+	for _, a := range c.Args {
+		mc, ok := a.(*ssa.MakeClosure)
+		if !ok {
+			continue
+		}
+		ms := newModSet()
+		ex.closureEffects(mc, ms, nil, 0)
+		ex.havocModSet(fr, st, ms, ex.vc.name("clo"))
+	}
 }
 
 // callbackCall: call of an opaque function value (parameter). Effect-free by assumption; result arbitrary.
@@ -981,8 +1005,68 @@ func (ex *Exec) specialCall(fr *Frame, st *State, callee *ssa.Function, args []V
 		pl := ex.vc.fresh("errid", "Int")
 		ex.assume(st, sx("<", pl, "0"))
 		return Term{S: sx("Dyn_other", fmt.Sprint(id), pl), T: callee.Signature.Results().At(0).Type()}, true
+	case "sort.Slice", "sort.SliceStable":
+		return ex.sortSlice(fr, st, c, args, pos), true
 	}
 	return nil, false
+}
+
+// sortSlice: assumed contract of sort.Slice(x, less). The slice held at the place x was loaded from is
+// replaced by one of the same length with the same set of elements, ordered by less (no element is
+// less than an earlier one) - which is what sort.Slice guarantees when less is a strict weak order.
+func (ex *Exec) sortSlice(fr *Frame, st *State, c *ssa.CallCommon, args []Value, pos token.Pos) Value {
+	vc := ex.vc
+	tc := vc.tc
+	mi, ok := c.Args[0].(*ssa.MakeInterface)
+	if !ok {
+		panic(unsupported("sort.Slice on a value that is not a direct slice"))
+	}
+	sv, ok := ex.operand(fr, st, mi.X).(Term)
+	if !ok || sv.Org == nil {
+		panic(unsupported("sort.Slice on a slice that is not held in a variable"))
+	}
+	clo, ok := args[1].(Closure)
+	if !ok {
+		panic(unsupported("sort.Slice with a non-literal less function"))
+	}
+	ex.top.oblCount["sort"]++
+	ord := ex.top.oblCount["sort"]
+	// guards about the comparison function (before the slice is permuted)
+	if fr.top && fr.contract != nil {
+		for _, g := range fr.contract.Guards {
+			if g.Kind != "sort" || g.Name != fmt.Sprint(ord) {
+				continue
+			}
+			fr.specEnvExtra["less"] = clo
+			goal := ex.specBool(fr, st, g.C)
+			delete(fr.specEnvExtra, "less")
+			ex.obligeNamed(st, fmt.Sprintf("%s#guard(sort %d)", funcKey(ex.top.fn), ord), "guard", goal, "comparison function of sort #"+fmt.Sprint(ord)+": "+g.C.Text, pos)
+		}
+	}
+	so := tc.sortOf(sv.T)
+	et := sv.T.Underlying().(*types.Slice).Elem()
+	oldArr, ln := ex.sliceParts(sv)
+	oldArr = vc.define("sortold", sx("Array", "Int", tc.sortOf(et)), oldArr)
+	ln = vc.define("sortlen", "Int", ln)
+	na := vc.fresh("sorted", sx("Array", "Int", tc.sortOf(et)))
+	nv := Term{S: vc.define("sortedsl", so, sx("mk_"+so, na, ln)), T: sv.T}
+	ex.store(st, *sv.Org, nv)
+	inr := func(v string) string { return sAnd(sx("<=", "0", v), sx("<", v, ln)) }
+	ex.assume(st, fmt.Sprintf("(forall ((qk! Int)) (! (=> %s (exists ((qj! Int)) (and %s (= (select %s qk!) (select %s qj!))))) :pattern ((select %s qk!))))", inr("qk!"), inr("qj!"), na, oldArr, na))
+	ex.assume(st, fmt.Sprintf("(forall ((qj! Int)) (! (=> %s (exists ((qk! Int)) (and %s (= (select %s qk!) (select %s qj!))))) :pattern ((select %s qj!))))", inr("qj!"), inr("qk!"), na, oldArr, oldArr))
+	// ordered: for a < b, not less(b, a) - less evaluated on the sorted contents
+	vc.noDefine++
+	lt := func() Term {
+		defer func() { vc.noDefine-- }()
+		w := st.clone()
+		w.pc = "true"
+		intT := types.Typ[types.Int]
+		r := ex.inlineCallAt(&Frame{fn: clo.Fn, depth: 0, ex: ex}, w, clo.Fn, []Value{Term{S: "qb!", T: intT}, Term{S: "qa!", T: intT}}, clo.Binds)
+		return ex.asTerm(r, types.Typ[types.Bool])
+	}()
+	ex.assume(st, fmt.Sprintf("(forall ((qa! Int) (qb! Int)) (=> (and (<= 0 qa!) (< qa! qb!) (< qb! %s)) (not %s)))", ln, lt.S))
+	vc.note("sort.Slice: assumed contract (same elements, ordered by the comparison function) in %s", funcKey(fr.fn))
+	return Tuple{}
 }
 
 func (ex *Exec) ifaceSpecial(fr *Frame, st *State, c *ssa.CallCommon, recv Value, args []Value) Value {
